@@ -22,7 +22,35 @@ Local Open Scope string_scope.
    Results are compared as what they are: label sets as maps from names to values, queries key by key
    (res_equiv).  C02_equivalent_checked is the same with every hypothesis as a computable test, which the
    correspondence run evaluates on its inputs (evidence: model_theorem_applies).  *)
-From KV Require Import Proofs.TranslateEquiv Proofs.TranslateRules.
+From KV Require Import Proofs.TranslateEquiv Proofs.TranslateRules Proofs.TranslateSorted.
+
+(* THE PROPERTY, as an equation of the two routes: the same target or none, the same visible label list, the same URL
+   (scheme, host, path, encoded query).  C02_equivalent below is the statement "equal as maps" it is derived from; visible
+   label sets (sorted by name, unique, no empty value) and encoded queries (keys in order, unique, no empty value list)
+   are canonical forms, so agreement on every name and key is equality of the lists (Proofs/TranslateSorted.v). *)
+Theorem C02_equal :
+  forall (R : labels -> option labels) (np aok : string -> bool) (iok : string -> string -> bool)
+         (c : jobcfg) (hash : N) (d : labels),
+  ndq (jc_params c) ->
+  qval "_hash" (jc_params c) = [] /\ qval "_jobName" (jc_params c) = [] /\ qval "_scheme" (jc_params c) = [] ->
+  (forall a, np a = true -> np (a ++ ":80") = false /\ np (a ++ ":443") = false) ->
+  forall Lp Lc : labels,
+  R (pre true c d) = Some Lp ->
+  R (pre false c d) = Some Lc ->
+  (forall k, lval k Lp = if String.eqb k I_ then jc_interval c else if String.eqb k T_ then jc_timeout c else lval k Lc) ->
+  lval I_ Lc = "" -> lval T_ Lc = "" ->
+  nd Lp -> ne Lp -> relabelled_ok Lc ->
+  sharded R np aok iok c hash d = plain R np aok iok c d.
+Proof. exact sharded_equals_plain. Qed.
+Print Assumptions C02_equal.
+
+(* ... and for relabel programs of the interpreter, every hypothesis being a computable test on the coordinator's run *)
+Theorem C02_equal_for_rules_checked : forall rs np aok iok c hash d,
+  (forall a, np a = true -> np (a ++ ":80") = false /\ np (a ++ ":443") = false) ->
+  rules_hyp_okb rs c d = true ->
+  sharded (relabel_rules rs) np aok iok c hash d = plain (relabel_rules rs) np aok iok c d.
+Proof. exact sharded_equals_plain_rules_checked. Qed.
+Print Assumptions C02_equal_for_rules_checked.
 
 Theorem C02_equivalent :
   forall (R : labels -> option labels) (np aok : string -> bool) (iok : string -> string -> bool)
